@@ -2,6 +2,7 @@
 use vstd::prelude::*;
 verus! {
 global size_of usize == 8;
+//@ include units/common/float.inc.rs
 pub type Int = isize;
 // =====================================================================================================
 // MODELS (rule R5)
@@ -131,6 +132,7 @@ proof fn lemma_realises_append(a: Seq<Element>, da: Seq<(Element, Transform)>, b
 // CODE UNDER CONTRACT
 // =====================================================================================================
 //@ fn layout21raw/src/data.rs :: fn flatten_helper
+//@   sub R10? /([\w\.\[\]]+) \+= ([^;]+);/ => \1 = \1 + \2;
 //@   sub R11? /([\w\.]+) as f64/ => vp_isize_as_f64(\1)
 //@   ret r
 //@   spec
